@@ -73,6 +73,8 @@ type snap struct {
 	PreDoneAt  int64  `json:"preDoneAt"`
 	LastSendAt int64  `json:"lastSendAt"`
 	CfinAt     int64  `json:"cfinAt"`
+	AddrDoneAt int64  `json:"addrDoneAt"`
+	StallKinds []string `json:"stallKinds"`
 }
 
 type tokOut struct {
@@ -110,6 +112,8 @@ type caseRec struct {
 	CloseAt    int64    `json:"closeAt"`
 	CfinAt     int64    `json:"cfinAt"`
 	PreDoneAt  int64    `json:"preDoneAt"`
+	AddrDoneAt int64    `json:"addrDoneAt"`
+	StallKinds []string `json:"stallKinds"`
 	LastSendAt int64    `json:"lastSendAt"`
 	TfinPolite bool     `json:"tfinPolite"`
 	Drain      string   `json:"drain"`
@@ -146,7 +150,8 @@ type cconn struct {
 	cfin    bool
 	tfin    bool
 	trst    bool
-	cfinAt, preDoneAt, lastSendAt int64
+	cfinAt, preDoneAt, lastSendAt, addrDoneAt int64
+	stallKinds []string
 	tfinPolite bool
 	sentBytes  int
 	rec        *caseRec
@@ -352,7 +357,7 @@ func runBehaviour(idx int, beh behaviour, opt options) ([]*caseRec, *behRec) {
 				req = fmt.Sprintf("[2001:db8::%x:%x]:%d", idx%60000+1, c, 8443)
 			}
 		}
-		cc := &cconn{cfinAt: -1, preDoneAt: -1, lastSendAt: -1}
+		cc := &cconn{cfinAt: -1, preDoneAt: -1, lastSendAt: -1, addrDoneAt: -1, stallKinds: []string{}}
 		cc.plan = buildPlan(rng, c, sc.Hs, sc.Tk, keys[pos], kinds[c], ntgt[c], req, atyp, func(p *connPlan) { primes = append(primes, p) })
 		cc.plan.KeyPos = pos
 		switch sc.Tk {
@@ -462,7 +467,8 @@ func runBehaviour(idx int, beh behaviour, opt options) ([]*caseRec, *behRec) {
 		// antecedent logs first (metrics, dialer), then what the peers have received so far
 		s := snap{I: i, A: e.A, NCS: cc.nsent, NTS: cc.ntsent, Cfin: cc.cfin, Tfin: cc.tfin, Trst: cc.trst,
 			ML: len(o.mlog), DL: o.dials, CL: len(o.clog), TL: len(o.tlog), WCS: o.wireCS, WTS: o.wireTS, WTR: o.wireTR, WCR: o.wireCR,
-			CloseAt: o.closeAt, TfinPolite: cc.tfinPolite, PreDoneAt: cc.preDoneAt, LastSendAt: cc.lastSendAt, CfinAt: cc.cfinAt}
+			CloseAt: o.closeAt, TfinPolite: cc.tfinPolite, PreDoneAt: cc.preDoneAt, LastSendAt: cc.lastSendAt, CfinAt: cc.cfinAt,
+			AddrDoneAt: cc.addrDoneAt, StallKinds: append([]string{}, cc.stallKinds...)}
 		b.mu.Unlock()
 		cc.rec.Snaps = append(cc.rec.Snaps, s)
 	}
@@ -482,6 +488,9 @@ func runBehaviour(idx int, beh behaviour, opt options) ([]*caseRec, *behRec) {
 			}
 			if !b.wait(w, obsHolds(pe)) {
 				stalled[pe.C] = true
+				if cs := conns[pe.C]; cs != nil {
+					cs.stallKinds = append(cs.stallKinds, pe.A)
+				}
 				if r := recs[pe.C]; r != nil {
 					r.Stalls = append(r.Stalls, fmt.Sprintf("%s(%d) before step %d %s", pe.A, pe.V, i, e.A))
 				}
@@ -528,6 +537,9 @@ func runBehaviour(idx int, beh behaviour, opt options) ([]*caseRec, *behRec) {
 			cc.lastSendAt = now
 			if cc.preDoneAt < 0 && cc.sentBytes >= 50 {
 				cc.preDoneAt = now
+			}
+			if cc.addrDoneAt < 0 && (t.Kind == kAddr || t.Kind == kAddrPlus || t.Kind == kAddrRest) {
+				cc.addrDoneAt = now
 			}
 			if t.Kind == kBad || t.Kind == kBadAddr {
 				cc.hasBadSent = true
@@ -579,6 +591,9 @@ func runBehaviour(idx int, beh behaviour, opt options) ([]*caseRec, *behRec) {
 		}
 		if !b.wait(w, obsHolds(pe)) {
 			stalledEnd[pe.C] = true
+			if cs := conns[pe.C]; cs != nil {
+				cs.stallKinds = append(cs.stallKinds, pe.A)
+			}
 			if r := recs[pe.C]; r != nil {
 				r.Stalls = append(r.Stalls, fmt.Sprintf("%s(%d) at the end", pe.A, pe.V))
 			}
@@ -652,6 +667,8 @@ func runBehaviour(idx int, beh behaviour, opt options) ([]*caseRec, *behRec) {
 		r.DialAddrs = append(r.DialAddrs, o.dialAddrs...)
 		r.AcceptAt, r.CloseAt = o.acceptAt, o.closeAt
 		r.CfinAt, r.PreDoneAt, r.LastSendAt = cc.cfinAt, cc.preDoneAt, cc.lastSendAt
+		r.AddrDoneAt = cc.addrDoneAt
+		r.StallKinds = append([]string{}, cc.stallKinds...)
 		r.TfinPolite = cc.tfinPolite
 		r.WCS, r.WTR, r.WTS, r.WCR = o.wireCS, o.wireTR, o.wireTS, o.wireCR
 		for _, m := range o.mlog {
